@@ -113,8 +113,10 @@ mutual
 theorem valTyS_noParam {S E : List String} : ∀ {t : Ty}, valTyS S E t = true → tyContainsTypeParam t = false
   | .ref e, h => by simp only [valTyS] at h; simp only [tyContainsTypeParam]; exact valTyS_noParam h
   | .tuple ts, h => by simp only [valTyS] at h; simp only [tyContainsTypeParam]; exact valTysS_noParam h
+  | .array len e, h => by
+    simp only [valTyS, Bool.and_eq_true] at h; simp only [tyContainsTypeParam]; exact valTyS_noParam h.2
   | .unit, _ | .bool, _ | .string, _ | .int _ _, _ | .struct _, _ | .enum _, _ => by simp [tyContainsTypeParam]
-  | .float _, h | .dyn _, h | .app _ _, h | .array _ _, h | .vec _, h | .param _, h | .func _ _, h
+  | .float _, h | .dyn _, h | .app _ _, h | .vec _, h | .param _, h | .func _ _, h
   | .tvar _, h => by simp [valTyS, scalarTy] at h
 theorem valTysS_noParam {S E : List String} : ∀ {ts : List Ty}, valTysS S E ts = true → tysContainTypeParam ts = false
   | [], _ => by simp [tysContainTypeParam]
@@ -138,6 +140,19 @@ theorem refRuntime_mem : ∀ (refs : List Ty) (e : Ty), Ty.ref e ∈ refs → ty
     · obtain ⟨h1, h2, h3⟩ := refRuntime_mem rest e h hp
       exact ⟨List.mem_append_right _ h1, List.mem_append_right _ h2, List.mem_append_right _ h3⟩
 
+/-- the helpers `make_array_runtime` emits for a collected array type (not of the wildcard length) -/
+theorem arrayRuntime_mem : ∀ (arrs : List Ty) (len : Nat) (e : Ty), Ty.array len e ∈ arrs → len ≠ Goml.Gen.arrayWildcardLen →
+    arrGetFn (.array len e) len e ∈ (GFile.mk (arrayRuntime arrs)).funcs ∧ arrSetFn (.array len e) len e ∈ (GFile.mk (arrayRuntime arrs)).funcs
+  | [], len, e, h, _ => by cases h
+  | t :: rest, len, e, h, hw => by
+    simp only [arrayRuntime]
+    rw [funcs_append]
+    rcases List.mem_cons.mp h with rfl | h
+    · have : (len == Goml.Gen.arrayWildcardLen) = false := by simpa using hw
+      refine ⟨List.mem_append_left _ ?_, List.mem_append_left _ ?_⟩ <;> simp [this, GFile.funcs]
+    · obtain ⟨h1, h2⟩ := arrayRuntime_mem rest len e h hw
+      exact ⟨List.mem_append_right _ h1, List.mem_append_right _ h2⟩
+
 /-- part of `closedOK`: the Go function names of the emitted file are pairwise distinct -/
 theorem closed_funcs_nodup {env : Env} {file : AFile} {n : Nat} {G : List String} (h : closedOK env file n G = true) :
     ((goFilePreSt env file n).1.funcs.map (·.name)).Nodup := by
@@ -154,7 +169,7 @@ theorem link_of_closed {env : Env} {file : AFile} {n : Nat} {G : List String} (h
   have hndS := of_decide_eq_true hndS
   have hfuncs := funcs_goFilePre env file n
   refine ⟨⟨fun b g hb => ?_, fun r hr => ?_⟩, fun g hg _ => findFn_progOf hP hndS hg, fun g hg hG => ?_, fun b hb => ?_,
-    fun b hb => ?_, fun e he => ?_, fun ts hts => ?_,
+    fun b hb => ?_, fun e he => ?_, fun ts hts => ?_, fun b hb => ?_, fun len e he => ?_,
     ⟨hstr, fun n hn => List.all_eq_true.mp htab n hn, fun n hn => List.all_eq_true.mp hetab n hn⟩⟩
   · simp only [GFile.findFunc] at hb ⊢
     rw [hfuncs, List.find?_append, hb]; rfl
@@ -217,5 +232,32 @@ theorem link_of_closed {env : Env} {file : AFile} {n : Nat} {G : List String} (h
     cases hd : (goFilePreSt env file n).1.structFields (goTypeNameFor (.tuple ts)) with
     | none => rw [hd] at htb; exact absurd htb.2 (by simp)
     | some decl => rw [hd] at htb; exact ⟨decl, rfl, by simpa using htb.2⟩
+  · apply findFn_none hP
+    intro f hf e
+    have := List.all_eq_true.mp hnb f hf
+    rw [e] at this
+    have hc : arrNames.contains b = true := List.contains_iff_mem.mpr hb
+    rw [hc] at this; simp at this
+  · -- the helpers of an array type the file mentions
+    simp only [arrTyOK, Bool.and_eq_true, List.any_eq_true] at he
+    obtain ⟨hval, x, hx, hbeq⟩ := he
+    have hxe : x = .array len e := ((Goml.Mono.tyBeq_iff _ _).mp hbeq).symm
+    subst hxe
+    have hlen : len ≠ Goml.Gen.arrayWildcardLen := by
+      simp only [valTy, valTyS, Bool.and_eq_true, decide_eq_true_eq] at hval
+      have := hval.1.2
+      intro heq; rw [heq] at this; revert this; decide
+    obtain ⟨m1, m2⟩ := arrayRuntime_mem _ len e hx hlen
+    have hmid : ∀ g, g ∈ (GFile.mk (arrayRuntime (collectRuntimeTypes file).arrays)).funcs → g ∈ (goFilePreSt env file n).1.funcs := by
+      intro g hg
+      rw [hfuncs]
+      refine List.mem_append_right _ (List.mem_append_left _ ?_)
+      simp only [midFuncs]
+      exact List.mem_append_left _ hg
+    have hfind : ∀ g, g ∈ (goFilePreSt env file n).1.funcs → (goFilePreSt env file n).1.findFunc g.name = some g := by
+      intro g hg
+      have := find?_of_nodup (fun f : GFunc => f.name) _ hndF _ hg
+      simpa [GFile.findFunc] using this
+    exact ⟨hfind _ (hmid _ m1), hfind _ (hmid _ m2)⟩
 
 end Goml.GoComp
